@@ -5,6 +5,7 @@ package grpcservers
 import (
 	"context"
 	"hash"
+	"io"
 
 	remoteexecution "github.com/bazelbuild/remote-apis/build/bazel/remote/execution/v2"
 	vnd "github.com/buildbarn/bb-storage/internal/verifnd"
@@ -190,4 +191,46 @@ func (s *verifWriteStream) SendAndClose(r *bytestream.WriteResponse) error {
 	s.responses = append(s.responses, r)
 	*s.events = append(*s.events, "closed")
 	return nil
+}
+
+// ---- a backend whose read streams count their Close calls ------------------------
+
+type verifCountingSource struct {
+	data   []byte
+	pos    int
+	closes int
+}
+
+func (s *verifCountingSource) Read(p []byte) (int, error) {
+	if s.closes > 0 {
+		vnd.Unreachable("backend stream read after Close")
+	}
+	if s.pos >= len(s.data) {
+		return 0, io.EOF
+	}
+	n := copy(p, s.data[s.pos:])
+	s.pos += n
+	return n, nil
+}
+
+func (s *verifCountingSource) Close() error {
+	s.closes++
+	return nil
+}
+
+// verifStreamingCAS serves what the model holds through reader-backed,
+// validating CAS buffers.
+type verifStreamingCAS struct {
+	*verifstub.Model
+	sources []*verifCountingSource
+}
+
+func (c *verifStreamingCAS) Get(ctx context.Context, d digest.Digest) buffer.Buffer {
+	data, err := c.Model.Get(ctx, d).ToByteSlice(1 << 20)
+	if err != nil {
+		return buffer.NewBufferFromError(err)
+	}
+	src := &verifCountingSource{data: data}
+	c.sources = append(c.sources, src)
+	return buffer.NewCASBufferFromReader(d, src, buffer.BackendProvided(func(bool) {}))
 }
